@@ -7,7 +7,11 @@ R26a  the per-change loops that drain a reader's received changes (`for cache_ch
       a batch that was already taken out of the transport reader — those samples are lost.
 R26b  filter mismatch edges stay inside the loop (implied by R26a) and the filter evaluation contains no
       diverging arm for member kinds (todo!/unimplemented!) — reported under C06 (shared reachability rule).
-Filter evaluation semantics are not decided.
+R26c  filter evaluation is stateless across samples: every iterator that is advanced inside the per-change loop (other than the
+      loop's own) is created inside the loop, so evaluating the filter for one sample cannot consume state the next sample needs
+R26d  the comparison helpers of the filter agree per operator: `=` is `==` and `<=` is `<=` for every operand type
+      (compare_string / compare_int32 are siblings)
+Filter evaluation semantics beyond that are not decided.
 """
 from vplib import expr as E
 from rules.common import FnCtx, adder
@@ -58,8 +62,106 @@ def batch_loops(fx, b, rep):
     return n
 
 
+def stateless_per_sample(fx, b, rep):
+    fc = FnCtx(b)
+    m = fc.mir
+    loops = m.natural_loops()
+    n = 0
+    # the per-change loop: the loop that contains the add_reader_change call
+    anchors = [bb for bb, t in fc.calls("add_reader_change")]
+    if not anchors:
+        return 0
+    cands = [h for h, body in loops.items() if anchors[0] in body]
+    if not cands:
+        return 0
+    # outermost loop that iterates the changes: the smallest loop whose own iterator is the CacheChange IntoIter
+    per_change = None
+    for h in sorted(cands, key=lambda x: len(loops[x])):
+        for bb, t in fc.calls("Iterator::next"):
+            if bb in loops[h] and "CacheChange" in (t.callee.self_ty or "") and "IntoIter" in (t.callee.self_ty or ""):
+                per_change = h
+        if per_change is not None:
+            break
+    if per_change is None:
+        return 0
+    body = loops[per_change]
+    for bb, t in fc.calls("Iterator::next"):
+        if bb not in body or t.callee.indirect:
+            continue
+        st = t.callee.self_ty or ""
+        if "CacheChange" in st and "IntoIter" in st:
+            continue
+        a0 = t.args[0]
+        if a0.place is None:
+            continue
+        # where was the iterator this call advances created?
+        src = a0.place.local
+        created = None
+        for _ in range(4):
+            ds = m.whole_defs(src)
+            if len(ds) != 1:
+                break
+            d = ds[0]
+            if d[0] == "t":
+                created = d[1]
+                break
+            rv = d[3].rv
+            if rv is not None and rv.kind in ("ref", "use", "rawptr") and (rv.place is not None or (rv.ops and rv.ops[0].place is not None)):
+                src = (rv.place or rv.ops[0].place).local
+                continue
+            created = d[1]
+            break
+        if created is None:
+            continue
+        n += 1
+        rep.add("R26c", b.sname, "iterator advanced per sample is created per sample", created in body,
+                "an iterator created before the per-change loop (block %s) is advanced inside it: the first sample consumes it and the filter of every later sample of the batch sees an exhausted iterator" % created,
+                b.loc(t.line))
+    return n
+
+
+def operator_agreement(fx, rep):
+    """R26d: per Operator variant, compare_* helpers use the same relational operator"""
+    helpers = [b for b in fx.bodies.values() if (b.item_name or "").startswith("compare_") and b.is_fn_like() and "Operator" in (b.impl_self or b.sname) and "communication_methods" in b.sname]
+    tabs = {}
+    for b in helpers:
+        fc = FnCtx(b)
+        m = fc.mir
+        dom = m.dominators()
+        tab = {}
+        for sb, ce in fc.ces.items():
+            if not ce.is_discr():
+                continue
+            for v, tgt in ce.arms + ([("otherwise", ce.otherwise)] if ce.otherwise is not None else []):
+                ops = set()
+                for x, ds in dom.items():
+                    if ds is None or tgt not in ds:
+                        continue
+                    t = m.blocks[x].term
+                    if t.kind == "call" and not t.callee.indirect and t.callee.method() in ("eq", "ne", "lt", "le", "gt", "ge"):
+                        ops.add(t.callee.method())
+                    for s in m.blocks[x].stmts:
+                        if s.kind == "assign" and s.rv is not None and s.rv.kind == "binop" and s.rv.op in ("Eq", "Ne", "Lt", "Le", "Gt", "Ge"):
+                            ops.add(s.rv.op.lower())
+                if ops:
+                    tab[v] = tuple(sorted(ops))
+        tabs[b.sname] = tab
+    n = len(tabs)
+    if n >= 2:
+        vals = list(tabs.items())
+        ref = vals[0][1]
+        for name, tab in vals[1:]:
+            rep.add("R26d", name, "the comparison used per filter operator is the same as in %s" % vals[0][0].split("::")[-1], tab == ref,
+                    "operator tables differ: %s vs %s — a filter `x <= p` then treats x == p differently depending on the member type" % (tab, ref))
+    return n
+
+
 def run(ctx, rep):
     fx = ctx.facts
+    k = stateless_per_sample(fx, fx.fn("DcpsDomainParticipant", "process_user_defined_received_cache_changes"), rep)
+    rep.floor("R26c", k, 1, "iterators advanced inside the per-change loop")
+    h = operator_agreement(fx, rep)
+    rep.floor("R26d", h, 2, "filter comparison helpers")
     n = 0
     for ty, name in (("DcpsDomainParticipant", "process_user_defined_received_cache_changes"), ("BuiltinDataReader", "process_cache_changes")):
         n += batch_loops(fx, fx.fn(ty, name), rep)
